@@ -197,13 +197,14 @@ example : TieA.Dyn.MaskOk TieA.Dyn.exMops := TieA.Dyn.exMops_ok
 
 /-- builder R — the bit operations of `ChannelMask<N>` (types.rs), regenerated from the current source
 (`Gen/ChannelMaskFn.lean`: `channel >> 3`, `1 << (channel & 7)` typed `u8` from its later use, `!flag`, `|=` /
-`&=` through the index, `N * 8 - 1`), are the model's on every mask of octets, for every index and value:
+`&=` through the index, `N * 8 - 1`), are the model's on every mask of octets, for every `usize` index and value:
 `set_channel` = `Mask.setChannel` (one bit set or cleared, out of bounds a panic) and keeps the mask a list of
 octets of the same length; `is_enabled(i).unwrap()` = `Mask.isEnabled` and answers `Ok` for `i ≤ N*8 − 1`;
 `set_bank` = `Mask.setBank`; `get_index` reads byte `index`.  With `genMops_ok` this discharges the hypothesis
 `MaskOk` of builder N's handler theorems, which are stated above for the regenerated operations
 (`TieA.DynMask.genMops`).  Proved in `Props/TieA/ChannelMask.lean`. -/
-theorem tieA_channel_mask_ops (m : Gen.ChannelMaskFn.ChannelMask) (hm : TieA.CMask.Octets m._0) (i : Int) (h0 : 0 ≤ i) :
+theorem tieA_channel_mask_ops (m : Gen.ChannelMaskFn.ChannelMask) (hm : TieA.CMask.Octets m._0) (i : Int) (h0 : 0 ≤ i)
+    (h1 : i ≤ 18446744073709551615) :
     (∀ set, (Gen.ChannelMaskFn.ChannelMask.set_channel m i set).map (fun m' => TieA.CMask.natsOf m'._0)
         = (Mask.setChannel (TieA.CMask.natsOf m._0) i.toNat set).toOption) ∧
     (∀ set m', Gen.ChannelMaskFn.ChannelMask.set_channel m i set = some m' → TieA.CMask.Octets m'._0 ∧ m'._0.length = m._0.length) ∧
@@ -214,9 +215,9 @@ theorem tieA_channel_mask_ops (m : Gen.ChannelMaskFn.ChannelMask) (hm : TieA.CMa
         = (Mask.setBank (TieA.CMask.natsOf m._0) i.toNat v.toNat).toOption) ∧
     (Gen.ChannelMaskFn.ChannelMask.get_index m i).map Int.toNat = (TieA.CMask.natsOf m._0)[i.toNat]? ∧
     TieA.Dyn.MaskOk TieA.DynMask.genMops :=
-  ⟨fun set => TieA.CMask.set_channel_tie m hm i h0 set,
-   fun set m' h => TieA.CMask.set_channel_octets m m' hm i h0 set h,
-   fun hl h64 => TieA.CMask.is_enabled_tie m hm hl h64 i h0,
+  ⟨fun set => TieA.CMask.set_channel_tie m hm i h0 h1 set,
+   fun set m' h => TieA.CMask.set_channel_octets m m' hm i h0 h1 set h,
+   fun hl h64 => TieA.CMask.is_enabled_tie m hm hl h64 i h0 h1,
    fun v hv => TieA.CMask.set_bank_tie m hm i h0 v hv,
    TieA.CMask.get_index_tie m hm i h0,
    TieA.DynMask.genMops_ok⟩
